@@ -23,7 +23,11 @@ pub fn signature(entry: u8, o: &Outcome) -> String {
 
 /// Ok(outcome) = the case passes (possibly a tolerated known finding); Err = violation / harness problem
 pub fn crash_check(prop: &str, entry: u8, payload: &[u8], rep: &mut CaseReport) -> Result<Outcome, Violation> {
-    let o = worker::run_case(entry, payload);
+    crash_check_in(worker::Flavour::Release, prop, entry, payload, rep)
+}
+
+pub fn crash_check_in(flavour: worker::Flavour, prop: &str, entry: u8, payload: &[u8], rep: &mut CaseReport) -> Result<Outcome, Violation> {
+    let o = worker::run_case_in(flavour, entry, payload);
     match &o {
         Outcome::Ok { .. } => Ok(o),
         Outcome::Infra(e) => Err(Violation::new("harness-worker", e.clone())),
@@ -39,7 +43,8 @@ pub fn crash_check(prop: &str, entry: u8, payload: &[u8], rep: &mut CaseReport) 
                     return Ok(o);
                 }
             }
-            Err(Violation::new(&o.kind(), format!("{}\nsignature: {}", o.describe(), signature(entry, &o))))
+            let build = if flavour == worker::Flavour::Unoptimised { "\nbuild: unoptimised (dev profile), 2 MiB case stack" } else { "" };
+            Err(Violation::new(&o.kind(), format!("{}\nsignature: {}{}", o.describe(), signature(entry, &o), build)))
         }
     }
 }
